@@ -310,6 +310,46 @@ example : (runStarts (exCfg true) exDir [(Args.empty, exFresh), (exArgs, exFresh
 example : (start (exCfg true) [] Args.empty exFresh).out
     = .ok ⟨List.replicate 20 0x55, List.replicate 32 0x66, List.replicate 24 0x88, 0⟩ := by decide
 
+/-! ### refused starts -/
+
+/-- **a refused start changes nothing**: when the directory holds a state file (readable or
+    not) and a start — with ANY arguments: none, an out-of-range or non-numeric `iat-mode`,
+    malformed or partial `node-id` / `private-key` / `drbg-seed` — returns an error, it has
+    performed no file-system call at all: every check (argument completeness, load, override
+    parsing, hex/length validation, IAT range) happens before the first write. -/
+theorem refused_start_changes_nothing (cfg : Cfg) (d : Dir) (a : Args) (fresh : JS) (c : Bytes)
+    (hc : get d sfN = some c) (herr : (start cfg d a fresh).out = .err) :
+    (start cfg d a fresh).ops = [] ∧ run d (start cfg d a fresh).ops = d := by
+  have hops : (start cfg d a fresh).ops = [] := by
+    simp only [sfN] at hc
+    unfold start at herr ⊢
+    cases hp : a.priv <;> cases hn : a.nodeID <;> cases hs : a.seed <;>
+      simp only [hp, hn, hs, hc] at herr ⊢
+    · cases hl : loadJS c with
+      | none => rfl
+      | some js =>
+        simp only [hl] at herr ⊢
+        exact finish_err_ops cfg [] js a.iat herr
+    · exact finish_err_ops cfg [] _ a.iat herr
+  exact ⟨hops, by rw [hops]; rfl⟩
+
+/-- hence the persisted identity survives every refused start, and the next plain start
+    presents it unchanged (IAT mode included) -/
+theorem refused_start_keeps_identity (cfg : Cfg) (d : Dir) (i : Ident) (a : Args) (fresh fresh' : JS)
+    (h : recover d = .valid i) (herr : (start cfg d a fresh).out = .err) :
+    recover (run d (start cfg d a fresh).ops) = .valid i ∧
+    (start cfg (run d (start cfg d a fresh).ops) Args.empty fresh').out = .ok i := by
+  obtain ⟨c, _, hc, _, _, _⟩ := recover_valid d i h
+  rw [(refused_start_changes_nothing cfg d a fresh c hc herr).2]
+  exact ⟨h, (start_of_valid cfg d i Args.empty fresh' h ⟨rfl, rfl, rfl⟩).1⟩
+
+/-- instances: an out-of-range override, a non-numeric one, a partial and a malformed explicit
+    identity are all refused on the example directory -/
+example : (start (exCfg true) exDir ⟨none, none, none, some [51]⟩ exFresh).out = .err
+    ∧ (start (exCfg true) exDir ⟨none, none, none, some [120]⟩ exFresh).out = .err
+    ∧ (start (exCfg true) exDir ⟨some (List.replicate 40 49), none, none, none⟩ exFresh).out = .err
+    ∧ (start (exCfg true) exDir ⟨some [122, 122], some (List.replicate 64 50), some (List.replicate 48 52), none⟩ exFresh).out = .err := by
+  decide
 /-! ## Crashes -/
 
 /-- **the crash states are exactly the crash points**: a directory is among the enumerated crash
